@@ -20,7 +20,7 @@ def determinism(props, seed, n_runs=192):
         digs = []
         t0 = time.monotonic()
         for label, ncpu, groups in (('a', 16, 16), ('b', 16, 16), ('c', 3, 16)):
-            jobs = cli.make_jobs(prop, 'quick', seed, n_runs, os.path.join(out_dir, label), 600, [],
+            jobs = cli.make_jobs(prop, 'quick', seed, n_runs, os.path.join(out_dir, label), 600, cli.excluded_for(prop),
                                  want_digests=True, groups=groups)
             results, errors = cli.run_jobs(jobs, ncpu, '/repo', 900, stop_on_violation=False)
             if errors:
@@ -30,10 +30,10 @@ def determinism(props, seed, n_runs=192):
             digs.append(m['digests'])
         same = digs[0] == digs[1] == digs[2] and len(digs[0]) == n_runs
         # other hash seeds: verdicts must match (no violation in either)
-        jobs = cli.make_jobs(prop, 'quick', seed + 1, n_runs, os.path.join(out_dir, 'd'), 600, [],
+        jobs = cli.make_jobs(prop, 'quick', seed + 1, n_runs, os.path.join(out_dir, 'd'), 600, cli.excluded_for(prop),
                              want_digests=True, groups=16)
         # same run seeds as batch `seed`, but hash seeds of batch seed+1
-        base = cli.make_jobs(prop, 'quick', seed, n_runs, os.path.join(out_dir, 'd'), 600, [],
+        base = cli.make_jobs(prop, 'quick', seed, n_runs, os.path.join(out_dir, 'd'), 600, cli.excluded_for(prop),
                              want_digests=True, groups=16)
         jobs = [(g, hs, b[2]) for (g, hs, _), b in zip(jobs, base)]
         results, errors = cli.run_jobs(jobs, 16, '/repo', 900, stop_on_violation=False)
